@@ -655,7 +655,7 @@ fn childseq_virtual(sys: &yash_env::system::r#virtual::VirtualSystem, steps: &[u
 }
 
 /// The same on the real kernel: the child sleeps in pause(); after each signal
-/// the parent polls /proc for the state the model expects (at most 0.5 s).
+/// the parent polls /proc for the state the model expects (at most 1.2 s per step).
 fn childseq_real(sys: &yash_env::system::real::RealSystem, steps: &[u8]) -> String {
     // (the history may have lowered the soft limit on open files, and the
     // probe reads /proc: lifted for its duration, put back afterwards)
@@ -709,7 +709,7 @@ fn childseq_real_inner(sys: &yash_env::system::real::RealSystem, steps: &[u8]) -
         stat.rsplit_once(") ")?.1.chars().next()
     };
     let settle = |want: u8| {
-        let deadline = std::time::Instant::now() + std::time::Duration::from_millis(500);
+        let deadline = std::time::Instant::now() + std::time::Duration::from_millis(1200);
         loop {
             let ok = match (want, letter(pid)) {
                 (0, Some('S' | 'R')) => true,
